@@ -232,8 +232,12 @@ fn sample_d<const D: usize>(c: &SCase, ctx: &mut Ctx) -> Result<(), Failure> {
                 fail!("sample-ok-with-nan", "sample Ok with stability test Some({:e}) but the L matrix is not finite: {:?}; case {c:?}", c.tol, md.l);
             }
             check_decomp_ok(&md.l, &md.dec, Some(c.tol), "sample")?;
-            if !(o.u.is_finite()) {
-                fail!("ok-with-nan", "sample Ok with stability test but u = {}", o.u);
+            if o.u.is_nan() {
+                fail!("sample-ok-with-nan", "sample Ok with stability test but u = {}", o.u);
+            }
+            if o.u.is_infinite() {
+                // overflow of det = det_q^2 for huge parameters: outside f64's range, not a NaN decomposition
+                ctx.label("sample:Ok(determinant overflowed to inf)");
             }
         }
     }
